@@ -16,7 +16,7 @@ from typing import Dict, List, Optional, Set, Tuple
 from ..adi import BOOL_UNIVERSE, FALSE, TRUE, Interp, enum_universe
 from ..fold import CannotFold, Folder, Sym
 from ..model import AnchorError, Program, dotted, kw, last_attr, norm, parent, walk_no_nested
-from ..report import Check
+from ..report import Check, guard
 from .common import (
     SINGLETONS,
     calls_in,
@@ -426,20 +426,17 @@ def r02l(prog: Program, chk: Check) -> None:
 
 
 def run(prog: Program, chk: Check) -> None:
-    r02hi(prog, chk)
-    r02j(prog, chk)
-    r02k(prog, chk)
-    r02l(prog, chk)
-    r02f(prog, chk)
-    r02g(prog, chk)
-    r02a(prog, chk)
-    r02b(prog, chk)
-    r02c(prog, chk)
-    r02d(prog, chk)
-    r02e(prog, chk)
-
-
-# --------------------------------------------------------------------- R02.a
+    guard(chk, r02hi, prog, chk)
+    guard(chk, r02j, prog, chk)
+    guard(chk, r02k, prog, chk)
+    guard(chk, r02l, prog, chk)
+    guard(chk, r02f, prog, chk)
+    guard(chk, r02g, prog, chk)
+    guard(chk, r02a, prog, chk)
+    guard(chk, r02b, prog, chk)
+    guard(chk, r02c, prog, chk)
+    guard(chk, r02d, prog, chk)
+    guard(chk, r02e, prog, chk)  # --------------------------------------------------------------------- R02.a
 def r02a(prog: Program, chk: Check) -> None:
     chk.rule(
         "R02.a",
